@@ -25,8 +25,8 @@ Ops == CASE MODE = "compose" -> {"compose"}
          [] MODE = "reduce" -> {"reduce"}
          [] MODE = "arithaff" -> {"neg", "add_aff", "sub_aff", "mul_aff", "div_aff"}
          [] MODE = "prune" -> {"eliminate"}
-         [] MODE = "pruneg" -> {"compose_prune", "elim_compose_elim"}
-         [] MODE = "prunea" -> {"elim_add", "elim_sub"}
+         [] MODE = "pruneg" -> {"compose_prune", "elim_compose_elim", "compose_rhs_elim"}
+         [] MODE = "prunea" -> {"elim_add", "elim_sub", "add_rhs_elim"}
          [] OTHER -> {}
 
 Init == stage = "init" /\ f = None /\ g = None /\ h = None /\ op = "" /\ aff = None /\ sched = <<>> /\ hist = None
@@ -52,6 +52,9 @@ Apply == \E o \in Ops :
               [] o = "elim_compose_elim" -> Eliminate(Compose(Eliminate(f.t), g.t))
               [] o = "elim_add" -> Arith("add", Eliminate(f.t), g.t)
               [] o = "elim_sub" -> Arith("sub", Eliminate(f.t), g.t)
+              \* the right operand carries cached feasibility states (it was eliminated before); new nodes must start Indeterminate
+              [] o = "compose_rhs_elim" -> Eliminate(Compose(f.t, Eliminate(g.t)))
+              [] o = "add_rhs_elim" -> Eliminate(Arith("add", f.t, Eliminate(g.t)))
     /\ stage' = "done" /\ UNCHANGED <<f, g, aff, sched, hist>>
 
 \* tree (op) affine: the operator is applied to every terminal (tree first); -tree
@@ -86,12 +89,14 @@ ApplyFault == \E plan \in SUBSET ((0..(IF stage = "f" /\ MODE = "fault" THEN LpC
 \* operands: trees over R^2 -> R^2 for composition, trees over the input space with R^2 outputs for + and -
 ReluFirst == Dec(P(<<1, 0>>, 0), <<Leaf(Aff(<<<<1, 0>>, <<0, 1>>>>, <<0, 0>>)), Leaf(Aff(<<<<0, 0>>, <<0, 1>>>>, <<0, 0>>))>>)
 ReluFirstPartial == Dec(P(<<1, 0>>, 0), <<Missing, Leaf(Aff(<<<<0, 0>>, <<0, 1>>>>, <<0, 0>>))>>)
-HistCompose == {ReluFirst, ReluFirstPartial, Leaf(Aff(<<<<0, 1>>, <<1, 0>>>>, <<1, -2>>))}
-HistArith == {Dec(P(<<1>>, 0), <<Leaf(Aff(<<<<1>>, <<-1>>>>, <<0, 0>>)), Leaf(Aff(<<<<0>>, <<1>>>>, <<1, 1>>))>>),
+TwoLevelPartial == Dec(P(<<0, 1>>, 1), <<Dec(P(<<1, 0>>, 0), <<Missing, Leaf(Aff(<<<<0, 0>>, <<0, 1>>>>, <<0, 0>>))>>), Leaf(Aff(<<<<1, 0>>, <<0, 1>>>>, <<0, 0>>))>>)
+HistCompose == {ReluFirst, ReluFirstPartial, TwoLevelPartial, Leaf(Aff(<<<<0, 1>>, <<1, 0>>>>, <<1, -2>>))}
+HistArith == {Dec(P(<<1>>, 1), <<Dec(P(<<1>>, 0), <<Leaf(Aff(<<<<1>>, <<-1>>>>, <<0, 0>>)), Missing>>), Leaf(Aff(<<<<0>>, <<1>>>>, <<1, 1>>))>>),
+              Dec(P(<<1>>, 0), <<Leaf(Aff(<<<<1>>, <<-1>>>>, <<0, 0>>)), Leaf(Aff(<<<<0>>, <<1>>>>, <<1, 1>>))>>),
               Dec(P(<<-1>>, -1), <<Leaf(Aff(<<<<2>>, <<0>>>>, <<0, 1>>)), Missing>>)}
 HistAff == {Aff(<<<<0, 1>>, <<1, 0>>>>, <<1, -2>>), Aff(<<<<1, 1>>, <<0, 2>>>>, <<0, 0>>)}
 NoAff == [m |-> <<>>, b |-> <<>>, q |-> 1]
-HStep(o, x, a) == [op |-> o, rhs |-> IF x = None THEN <<>> ELSE ScriptOf(x, K, "dfs"), aff |-> a]
+HStep(o, x, a) == [op |-> o, rhs |-> IF x = None THEN <<>> ELSE ScriptOf(x, K, "dfs"), aff |-> a, rhs_elim |-> FALSE]
 HistStart == \E x \in FSet :
     /\ stage = "init" /\ MODE = "history"
     /\ f' = [abs |-> x, lay |-> "dfs", t |-> BuildTree(x, K, "dfs")]
@@ -138,7 +143,8 @@ LawArithAff == (stage = "done" /\ MODE = "arithaff") =>
                ELSE LiftPieces(SubSeq(op, 1, 3), PF0, {[cons |-> {}, out |-> Out(aff.m, aff.b, aff.q)]}), D)
 \* C03: pruning never changes the function (differences only on regions with empty interior)
 Expected == CASE op = "eliminate" -> PF0
-              [] op \in {"compose_prune", "elim_compose_elim"} -> ComposePieces(PF0, PG0)
+              [] op \in {"compose_prune", "elim_compose_elim", "compose_rhs_elim"} -> ComposePieces(PF0, PG0)
+              [] op = "add_rhs_elim" -> LiftPieces("add", PF0, PG0)
               [] op = "elim_add" -> LiftPieces("add", PF0, PG0)
               [] op = "elim_sub" -> LiftPieces("sub", PF0, PG0)
 LawPrune == (stage = "done" /\ MODE \in {"prune", "pruneg", "prunea"}) => PwlEqUpToThin(PH0, Expected, D)
@@ -150,7 +156,7 @@ CacheSound(t) ==
 LawCache == (stage = "done" /\ MODE \in {"prune", "pruneg", "prunea"}) => CacheSound(h)
 \* C06: on total trees elimination is effective and idempotent
 TotalTree(t) == \A i \in Occ(t) : ~t.nodes[i].leaf => \A sl \in 1..t.k : t.nodes[i].ch[sl] # NONE
-LawEffective == (stage = "done" /\ MODE \in {"prune", "pruneg", "prunea"} /\ op \in {"eliminate", "elim_compose_elim"} /\ TotalTree(f.t) /\ (op = "eliminate" \/ TotalTree(g.t))) =>
+LawEffective == (stage = "done" /\ MODE \in {"prune", "pruneg", "prunea"} /\ op \in {"eliminate", "elim_compose_elim", "compose_rhs_elim"} /\ TotalTree(f.t) /\ (op = "eliminate" \/ TotalTree(g.t))) =>
     /\ \A i \in Occ(h) \ {h.root} : Feas(ClosedRegion(h, i), D)
     /\ \A i \in Occ(h) \ {h.root} : ~h.nodes[i].leaf => NumChildren(h.nodes[i]) # 1
     /\ ObsTree(Eliminate(h)) = ObsTree(h)
@@ -189,14 +195,16 @@ LawHistory == InHist =>
     /\ CacheSound(h)
     /\ PwlEqUpToThin(PH0, HistExpected, D)
 
-Step(o) == [op |-> o, rhs |-> <<>>, aff |-> [m |-> <<>>, b |-> <<>>, q |-> 1]]
-StepG(o) == [op |-> o, rhs |-> ScriptOf(g'.abs, K, "dfs"), aff |-> [m |-> <<>>, b |-> <<>>, q |-> 1]]
+Step(o) == [op |-> o, rhs |-> <<>>, aff |-> [m |-> <<>>, b |-> <<>>, q |-> 1], rhs_elim |-> FALSE]
+StepG(o) == [op |-> o, rhs |-> ScriptOf(g'.abs, K, "dfs"), aff |-> [m |-> <<>>, b |-> <<>>, q |-> 1]] @@ [rhs_elim |-> FALSE]
 HistorySteps ==
     CASE op' = "eliminate" -> <<Step("eliminate")>>
       [] op' = "compose_prune" -> <<StepG("compose_prune")>>
       [] op' = "elim_compose_elim" -> <<Step("eliminate"), StepG("compose"), Step("eliminate")>>
       [] op' = "elim_add" -> <<Step("eliminate"), StepG("add")>>
       [] op' = "elim_sub" -> <<Step("eliminate"), StepG("sub")>>
+      [] op' = "compose_rhs_elim" -> <<[rhs_elim |-> TRUE] @@ StepG("compose"), Step("eliminate")>>
+      [] op' = "add_rhs_elim" -> <<[rhs_elim |-> TRUE] @@ StepG("add"), Step("eliminate")>>
 EmitHist ==
     (EMIT /\ MODE = "history" /\ stage' \in {"h1", "h2", "h3", "h4"}) =>
         PrintT("SCRIPT " \o ToJson([fam |-> "afftree", k |-> K, q |-> 1, mode |-> "history", lhs |-> ScriptOf(hist'.init, K, "dfs"),
